@@ -142,4 +142,58 @@ theorem C31_responses_in_request_order (app : Req → AppResp) (reqs : List Req)
       · have := h3.1; rw [List.getElem?_eq_none h] at this; cases this
     exact ⟨k, by omega, h3.2.2.2.2.2.1⟩
 
+/-! ## all N responses arrive -/
+
+/-- `n` rounds of strict alternation: client, server, client, server, … -/
+def alternate : Nat → List Who
+  | 0 => []
+  | n + 1 => Who.client :: Who.server :: alternate n
+
+theorem rank_run (app : Req → AppResp) (reqs : List Req) (hwf : ∀ q ∈ reqs, WFApp (app q)) (sch : List Who) (m : Nat) :
+    ∀ y, Base y → Rank app reqs y m → Base (run app y sch) ∧ Rank app reqs (run app y sch) m := by
+  induction sch with
+  | nil => intro y hb h; exact ⟨hb, h⟩
+  | cons w ws ih =>
+    intro y hb h
+    obtain ⟨hb', h'⟩ := step_rank app reqs hwf y w m hb h
+    exact ih _ hb' h'
+
+theorem rank_alternate (app : Req → AppResp) (reqs : List Req) (hwf : ∀ q ∈ reqs, WFApp (app q)) (m : Nat) :
+    ∀ y, Base y → Rank app reqs y m → Rank app reqs (run app y (alternate m)) 0 := by
+  induction m with
+  | zero => intro y _ h; exact h
+  | succ m ih =>
+    intro y hb h
+    obtain ⟨hb', h'⟩ := pair_rank app reqs hwf y m hb h
+    exact ih _ hb' h'
+
+/-- **C31, N requests in — N responses out, in order, under every schedule**: let the client and the server be
+serviced in *any* order for as long as one likes (`pre`), and then alternately for `Σ (yields of request i + 4)` more
+rounds.  Then the client's response queue is exactly `expected q₀, …, expected q_{N-1}`: one response per request, in
+request order, each attributed to its own request with the tag and body its application produced — and the client is
+idle again. -/
+theorem C31_n_in_n_out_ordered (app : Req → AppResp) (reqs : List Req) (hwf : ∀ q ∈ reqs, WFApp (app q))
+    (pre : List Who) :
+    let final := run app (initSys reqs) (pre ++ alternate (tailCost app reqs 0))
+    final.c.responses = reqs.map (expected app) ∧ final.c.waited = false := by
+  have hinit := inv_init app reqs
+  have hr0 : Rank app reqs (initSys reqs) (tailCost app reqs 0) := by
+    obtain ⟨_, k, _⟩ := hinit
+    exact ⟨0, Or.inl ⟨by simp [Idle, initSys, Quiet], Nat.le_refl _⟩⟩
+  obtain ⟨hb1, hr1⟩ := rank_run app reqs hwf pre _ _ hinit.1 hr0
+  have := rank_alternate app reqs hwf _ _ hb1 hr1
+  have hrun : run app (initSys reqs) (pre ++ alternate (tailCost app reqs 0))
+      = run app (run app (initSys reqs) pre) (alternate (tailCost app reqs 0)) := by
+    simp [run, List.foldl_append]
+  simp only [hrun]
+  exact rank_zero app reqs _ this
+
+/-- non-vacuity: three requests — fixed length, streamed, empty — under a lopsided prefix schedule -/
+example :
+    let app : Req → AppResp := fun q =>
+      if q.id = 0 then ⟨some 3, [[1, 2], [3, 4]]⟩ else if q.id = 1 then ⟨none, [[5], [], [6, 7]]⟩ else ⟨none, []⟩
+    (run app (initSys [⟨0⟩, ⟨1⟩, ⟨2⟩]) ([.server, .server, .client, .client, .client, .server] ++ alternate 12)).c.responses
+      = [⟨0, 0, [1, 2, 3]⟩, ⟨1, 1, [5, 6, 7]⟩, ⟨2, 2, []⟩] := by
+  decide +kernel
+
 end Ioflo.KeepAlive
